@@ -382,7 +382,7 @@ fn node_needs_merging_arith() {
 
 // ---- C16-Ob1 / C01: Node::split with the page size symbolic: the pieces partition the entries in order, nothing is
 //      lost or duplicated, every piece keeps at least 2 entries, no index under- or overflows
-// @ob props=C16,C01,C05 tier=quick cap=1200 mem=8 fns=Node::split,Node::size,NodeData::split_at,InnerBucket::new_node,Node::with_data bound="leaf node with 6 entries (concrete 1-byte keys 1..6), value lengths symbolic in 0..=600, page size symbolic in 64..=4096" unwind=8
+// @ob props=C16,C01,C05 tier=parked cap=1200 mem=8 fns=Node::split,Node::size,NodeData::split_at,InnerBucket::new_node,Node::with_data bound="leaf node with 6 entries (concrete 1-byte keys 1..6), value lengths symbolic in 0..=600, page size symbolic in 64..=4096" unwind=8
 #[kani::proof]
 #[kani::unwind(8)]
 fn node_split_partition() {
